@@ -9,13 +9,20 @@
 (*   WriteEPIPE  'broken pipe': the code redials; the redial succeeds iff    *)
 (*               the sink is up                                              *)
 (* and the sink dying / restarting at any moment (at most MaxFaults deaths). *)
+(* With Stalls, the sink may also stop READING (SinkStall): what the producer *)
+(* writes from then on is accepted by the kernel and waits in socket buffers  *)
+(* (`pending`; a write that finds them full simply blocks = is not taken);    *)
+(* the sink then either reads on (SinkResume: everything arrives, in order)   *)
+(* or resets the connection while staying reachable (SinkRst: what was        *)
+(* pending is gone, the write in progress fails with 'connection reset').     *)
 (* Messages are the numbers 1..N; what the sink receives is `delivered`.     *)
 (* Deviation switch FormatBug: the message is used as a printf FORMAT        *)
 (* (as built: fmt.Fprintf(conn, string(msg)+"\n")): a message holding '%'    *)
 (* (message 2 here) arrives altered.                                         *)
 EXTENDS Integers, Sequences, FiniteSets, TLC
 
-CONSTANTS N, MaxRetry, MaxFaults, FormatBug
+CONSTANTS N, MaxRetry, MaxFaults, FormatBug,
+          Stalls     \* the sink may stop reading / reset the connection while staying up
 
 VARIABLES next,      \* index of the next message to take (1..N+1)
           cur,       \* message in hand (0 = none)
@@ -24,44 +31,59 @@ VARIABLES next,      \* index of the next message to take (1..N+1)
           sinkUp, faults,
           delivered, \* sequence of messages the sink received as complete lines
           errCount,
-          stable     \* messages fully processed since the last fault / restart
-vars == <<next, cur, i, conn, sinkUp, faults, delivered, errCount, stable>>
+          stable,    \* messages fully processed since the last fault / restart
+          stalled,   \* the sink has stopped reading
+          pending    \* messages written while it was not reading: in the socket buffers
+vars == <<next, cur, i, conn, sinkUp, faults, delivered, errCount, stable, stalled, pending>>
 
 Init == next = 1 /\ cur = 0 /\ i = 0 /\ conn = "up" /\ sinkUp = TRUE /\ faults = 0
-        /\ delivered = <<>> /\ errCount = 0 /\ stable = 0
+        /\ delivered = <<>> /\ errCount = 0 /\ stable = 0 /\ stalled = FALSE /\ pending = <<>>
 
 Take == /\ cur = 0 /\ next <= N
         /\ cur' = next /\ next' = next + 1 /\ i' = 0
-        /\ UNCHANGED <<conn, sinkUp, faults, delivered, errCount, stable>>
+        /\ UNCHANGED <<conn, sinkUp, faults, delivered, errCount, stable, stalled, pending>>
 
 Finish == /\ cur' = 0 /\ i' = 0 /\ stable' = stable + 1
 
+Line == IF FormatBug /\ cur = 2 THEN -cur ELSE cur
 WriteOk == /\ cur # 0 /\ conn = "up"
-           /\ delivered' = Append(delivered, IF FormatBug /\ cur = 2 THEN -cur ELSE cur)
-           /\ Finish /\ UNCHANGED <<next, conn, sinkUp, faults, errCount>>
+           /\ IF stalled THEN pending' = Append(pending, Line) /\ UNCHANGED delivered
+                         ELSE delivered' = Append(delivered, Line) /\ UNCHANGED pending
+           /\ Finish /\ UNCHANGED <<next, conn, sinkUp, faults, errCount, stalled>>
 WriteLost == /\ cur # 0 /\ conn = "peerclosed"
              /\ conn' = "broken"
-             /\ Finish /\ UNCHANGED <<next, sinkUp, faults, delivered, errCount>>
+             /\ Finish /\ UNCHANGED <<next, sinkUp, faults, delivered, errCount, stalled, pending>>
 AfterErr ==
    /\ errCount' = errCount + 1
    /\ IF i >= MaxRetry THEN /\ cur' = 0 /\ i' = 0 /\ stable' = stable + 1
                        ELSE /\ i' = i + 1 /\ UNCHANGED <<cur, stable>>
 WriteReset == /\ cur # 0 /\ conn = "peerclosed"
               /\ conn' = "broken"
-              /\ AfterErr /\ UNCHANGED <<next, sinkUp, faults, delivered>>
+              /\ AfterErr /\ UNCHANGED <<next, sinkUp, faults, delivered, stalled, pending>>
 WriteEPIPE == /\ cur # 0 /\ conn = "broken"
               /\ conn' = IF sinkUp THEN "up" ELSE "broken"
-              /\ AfterErr /\ UNCHANGED <<next, sinkUp, faults, delivered>>
+              /\ AfterErr /\ UNCHANGED <<next, sinkUp, faults, delivered, stalled, pending>>
 
 SinkDie == /\ sinkUp /\ faults < MaxFaults
            /\ sinkUp' = FALSE /\ faults' = faults + 1 /\ stable' = 0
            /\ conn' = IF conn = "up" THEN "peerclosed" ELSE conn
+           /\ stalled' = FALSE /\ pending' = <<>>          \* what it had not read dies with it
            /\ UNCHANGED <<next, cur, i, delivered, errCount>>
 SinkRestart == /\ ~sinkUp /\ sinkUp' = TRUE /\ stable' = 0
-               /\ UNCHANGED <<next, cur, i, conn, faults, delivered, errCount>>
+               /\ UNCHANGED <<next, cur, i, conn, faults, delivered, errCount, stalled, pending>>
+SinkStall == /\ Stalls /\ sinkUp /\ conn = "up" /\ ~stalled /\ faults < MaxFaults
+             /\ stalled' = TRUE /\ faults' = faults + 1 /\ stable' = 0
+             /\ UNCHANGED <<next, cur, i, conn, sinkUp, delivered, errCount, pending>>
+SinkResume == /\ stalled
+              /\ delivered' = delivered \o pending /\ pending' = <<>> /\ stalled' = FALSE /\ stable' = 0
+              /\ UNCHANGED <<next, cur, i, conn, sinkUp, faults, errCount>>
+SinkRst == /\ stalled
+           /\ pending' = <<>> /\ stalled' = FALSE /\ stable' = 0
+           /\ conn' = IF conn = "up" THEN "peerclosed" ELSE conn
+           /\ UNCHANGED <<next, cur, i, sinkUp, faults, delivered, errCount>>
 
-Next == Take \/ WriteOk \/ WriteLost \/ WriteReset \/ WriteEPIPE \/ SinkDie \/ SinkRestart
-Spec == Init /\ [][Next]_vars /\ WF_vars(Take) /\ WF_vars(WriteOk) /\ WF_vars(WriteLost \/ WriteReset) /\ WF_vars(WriteEPIPE)
+Next == Take \/ WriteOk \/ WriteLost \/ WriteReset \/ WriteEPIPE \/ SinkDie \/ SinkRestart \/ SinkStall \/ SinkResume \/ SinkRst
+Spec == Init /\ [][Next]_vars /\ WF_vars(Take) /\ WF_vars(WriteOk) /\ WF_vars(WriteLost \/ WriteReset) /\ WF_vars(WriteEPIPE) /\ WF_vars(SinkResume \/ SinkRst)
 
 (* in order, no duplicates, hence a subsequence of what was handed over *)
 InOrderNoDup == \A a, b \in 1..Len(delivered) : a < b => delivered[a] < delivered[b]
@@ -71,7 +93,10 @@ NothingBeforeHandover == \A a \in 1..Len(delivered) : delivered[a] < next
 (* "delivery resumes": a message whose processing ends while the sink has been up and undisturbed for Gap whole
    messages is delivered.  The bound is tight (Gap - 1 is refuted). *)
 Gap == IF MaxRetry = 0 THEN 2 ELSE 1
-BoundedGap == [][ (cur # 0 /\ cur' = 0 /\ sinkUp /\ stable >= Gap) => (delivered' # delivered) ]_vars
-TightGap == [][ (cur # 0 /\ cur' = 0 /\ sinkUp /\ stable >= Gap - 1) => (delivered' # delivered) ]_vars
+BoundedGap == [][ (cur # 0 /\ cur' = 0 /\ sinkUp /\ ~stalled /\ stable >= Gap) => (delivered' # delivered) ]_vars
+TightGap == [][ (cur # 0 /\ cur' = 0 /\ sinkUp /\ ~stalled /\ stable >= Gap - 1) => (delivered' # delivered) ]_vars
+(* a sink that only pauses loses nothing: after it reads on, everything processed so far without an error has arrived *)
+PendingInOrder == \A a, b \in 1..Len(pending) : a < b => pending[a] < pending[b]
+PendingAfterDelivered == \A a \in 1..Len(delivered), b \in 1..Len(pending) : delivered[a] < pending[b]
 Terminates == <>(next = N + 1 /\ cur = 0)
 ===========================================================================
